@@ -123,9 +123,10 @@ impl Tunnel {
             let update_metrics = {
                 let metrics = context.metrics.clone();
                 let protocol = self.downstream.protocol();
+                // inbound traffic is what clients upload (client -> peer), outbound what they download
                 move |direction, n| match direction {
-                    pipe::SimplexDirection::Incoming => metrics.add_inbound_bytes(protocol, n),
-                    pipe::SimplexDirection::Outgoing => metrics.add_outbound_bytes(protocol, n),
+                    pipe::SimplexDirection::Outgoing => metrics.add_inbound_bytes(protocol, n),
+                    pipe::SimplexDirection::Incoming => metrics.add_outbound_bytes(protocol, n),
                 }
             };
 
